@@ -1,8 +1,13 @@
 """C18 -- Michelson text formatting and parsing are inverse.
 
 Bounded exhaustive exploration of the input space of
-    michelson_to_micheline(micheline_to_michelson(e, inline)) == e          inline in {True, False}
-over grammar-directed Micheline expressions:
+    michelson_to_micheline(micheline_to_michelson(e, inline, wrap)) == e          inline, wrap in {True, False}
+over grammar-directed Micheline expressions.  EVERY case of every family below is formatted with all four combinations of the
+formatter's public options; a (case, inline) whose text `wrap=True` leaves unchanged shares the verdict of the unwrapped text
+(the parser is a function of the text), every other combination is parsed and judged on its own -- so `wrap` meets every
+sort, the short and the long (line-breaking) version of every form, and every literal.  The parser's options are a
+dimension too: the default path `michelson_to_micheline(text)` (a new parser per call), a reused `MichelsonParser()` passed
+as `parser=`, and a reused `MichelsonParser(extra_primitives=[..])` called through `.parse(text)`:
 
   A  sort-directed family.  `mc/ref/msyntax.py` fixes the Michelson sort grammar (type / data / instruction /
      code sequence / script).  NODE FORMS of a sort (every primitive of that sort, every admissible signature,
@@ -43,24 +48,27 @@ from mc.ref import msyntax as G
 
 ID = 'C18'
 LEVEL = 'exploration'
-RULE = ('A: (host chain of depth<=K) x (node form of the hole sort: every primitive x signature x argument fillers x '
-        'annotation list incl. lists with a repeated token) x {short,long} x inline{T,F}; L: literal alphabets x data hosts; '
+RULE = ('every case x inline{T,F} x wrap{F,T} (wrap=True evaluated where it changes the text, else it shares the verdict); '
+        'A: (host chain of depth<=K) x (node form of the hole sort: every primitive x signature x argument fillers x '
+        'annotation list incl. lists with a repeated token) x {short,long}; A depth<=1 and L are also parsed by a parser constructed with '
+        'extra_primitives (through .parse); L: literal alphabets x data hosts; '
         'L2: ordered pairs / triples of literals x two-/three-hole hosts x {short, long trailing filler}; B: every prim_tags '
         'primitive x argument-shape tuples x {bare,annotated} x generic hosts; H: sequences of default-parser round trips in '
         'one process, forwards then backwards, each call judged, results scribbled over between calls.  JUDGED = msyntax.root_sort(expr) is not None.  '
-        'non-trivial = distinct judged (expr, inline) that contains at least one feature the statement names: applied or '
+        'non-trivial = distinct judged (expr, inline, wrap) that contains at least one feature the statement names: applied or '
         'annotated primitive in argument position, string needing an escape, negative int, bytes, nested/empty sequence, '
-        'or whose text takes the multi-line layout')
+        'or whose text takes the multi-line layout or is changed by wrap=True')
 BOUND = {
     'quick': 'A: chains depth<=1 with 12 annotation lists (3 with a repeated token), depth 2 with 4 on reduced forms; L: strings len<=2 '
              'over 13 special chars + all 96 single chars + white-space words len<=4, 14 ints, 7 byte strings; L2: 96^2 ordered pairs '
              '(strings len<=2 over 9 special chars, 3 ints, 2 byte strings) x 7 hosts, 8^3 triples x 2 hosts; B: 181 prims x tuples '
-             'len<=2 over 8 shapes x 2 x 8 hosts; H: 12 sequences (strings in 4 hosts, literals, types at root and in argument '
-             'position, data, instructions, code+scripts, short/long, same word up to case), about 11k default-parser calls',
+             'len<=2 over 8 shapes x 2 x 8 hosts; H: 13 sequences (strings in 4 hosts, literals, types at root and in argument '
+             'position, data, instructions, code+scripts, short/long, same word up to case, one datum below every data host short/long), '
+             'about 16k default-parser calls; all of it x inline{T,F} x wrap{F,T}; A depth<=1 and L also through the extra_primitives parser',
     'thorough': 'A: chains depth<=2 with 18 annotation lists (5 with a repeated token), depth 3 with 3 on reduced forms; L: strings len<=3; '
                 'L2: 204^2 ordered pairs (strings len<=2 over 13 special chars, 14 ints, 7 byte strings) x 7 hosts, 14^3 triples; '
                 'B: tuples len<=3; H: strings (white-space words len<=6) in every data host of depth<=1, other sequences as quick '
-                'with the thorough annotation lists',
+                'with the thorough annotation lists, plus one datum below every data host short/long; options and parser variants as quick',
 }
 ASSUMPTIONS = [
     '"denotes Michelson code, a type or data" is read syntactically: primitive classes, arities and argument sorts of '
@@ -72,6 +80,10 @@ ASSUMPTIONS = [
     'history: only what family H puts into one shard is a guaranteed history (the runner keeps a shard inside one process); '
     'which shards share a process is fixed for a given seed but not part of the claim',
     '`Ticket` data is taken as Ticket <ticketer> <type> <content> <amount>',
+    'formatting options: inline and wrap are all micheline_to_michelson accepts; "formatting it as Michelson text" is read as '
+    'formatting with any combination of them (the parser documents that it accepts the wrapped form).  Parser options: '
+    'extra_primitives is exercised with words that occur in no case; debug=True / write_tables=True make PLY write parser.out / '
+    'parsetab.py into the package directory of the tree under test and are NOT exercised',
 ]
 LEVEL_TEXT = ('exhaustive over the stated finite universe of expressions (every primitive, every admitted position, '
               'both layouts); says nothing about expressions deeper than the chain bound')
@@ -921,11 +933,11 @@ def shards(tier, seed):
         nch = len(chains(sort, depth))
         nf = len(_forms(sort, tier, annset, reduced))
         k = max(1, min(nch, (nch * nf) // 6000))
-        out += [(nch * nf * 4 * MS_BULK / k, (fam, sort, depth, annset, reduced, i, k)) for i in range(k)]
+        out += [(nch * nf * 4 * MS_BULK * (1.7 if depth <= 1 else 1.0) / k, (fam, sort, depth, annset, reduced, i, k)) for i in range(k)]
     nhosts = sum(len(chains('D', d)) for d in (0, 1, 2))
     for kind, n in (('string', len(strings(tier))), ('int', len(INTS)), ('bytes', len(BYTES))):
         k = 16 if (kind == 'string' and tier != 'quick') else 4
-        out += [(n * nhosts * 4 * MS_BULK / k, ('L', kind, 0, '', False, i, k)) for i in range(k)]
+        out += [(n * nhosts * 4 * MS_BULK * 1.7 / k, ('L', kind, 0, '', False, i, k)) for i in range(k)]
     k = 8 if tier == 'quick' else 32
     n = len(pair_literals(tier))
     out += [(n * n * len(L2_HOSTS) * 2 * MS_BULK / k, ('L2', 'pair', 0, '', False, i, k)) for i in range(k)]
@@ -937,7 +949,9 @@ def shards(tier, seed):
     nforms = sum(len(SHAPES) ** j for j in range((2 if tier == 'quick' else 3) + 1)) * 2
     out += [(len(prims) * nforms * len(B_HOSTS) * 2 * MS_BULK / nb, ('B', '', 0, '', False, i, nb)) for i in range(nb)]
     hs = history_sequences(tier)
-    out += [(len(seq) * 4 * MS_DEFAULT_PATH, ('H', '', 0, '', False, i, len(hs))) for i, (_, seq) in enumerate(hs)]
+    # 4 calls per expression, 8 where wrap=True changes the text (judged from the first expression of the sequence)
+    out += [(len(seq) * (8 if fmt(seq[0], True, True) != fmt(seq[0], True, False) else 4) * MS_DEFAULT_PATH,
+             ('H', '', 0, '', False, i, len(hs))) for i, (_, seq) in enumerate(hs)]
     # deal the shards to the runner's lanes like cards, most expensive first, alternating direction, so that the
     # static lanes carry about the same load (with the default seed; the set of shards never depends on it)
     out.sort(key=lambda ws: -ws[0])
